@@ -282,9 +282,9 @@ def tightenVar (s : TState α) (name : String) (candidate : Bounds α) : TState 
 
 mutual
 /-- `tighten_expression`. -/
-def tightenExpression (e : Exp α) (required : Bounds α) (s : TState α) : TState α :=
+def tightenExpression (e : Exp α) (requested : Bounds α) (s : TState α) : TState α :=
   if s.an.detectedInfeasible then s else
-  match (boundsOf s.an.variableBounds e).intersection required s.an.tolerance with
+  match (boundsOf s.an.variableBounds e).intersection requested s.an.tolerance with
   | none => ⟨s.an.markInfeasible, s.changed⟩
   | some required =>
     match e with
@@ -302,23 +302,23 @@ def tightenExpression (e : Exp α) (required : Bounds α) (s : TState α) : TSta
     | .bin .add l r =>
       let lb := boundsOf s.an.variableBounds l
       let rb := boundsOf s.an.variableBounds r
-      tightenExpression r (required.sub lb) (tightenExpression l (required.sub rb) s)
+      tightenExpression r (requested.sub lb) (tightenExpression l (requested.sub rb) s)
     | .bin .sub l r =>
       let lb := boundsOf s.an.variableBounds l
       let rb := boundsOf s.an.variableBounds r
-      tightenExpression r (lb.sub required) (tightenExpression l (required.add rb) s)
+      tightenExpression r (lb.sub requested) (tightenExpression l (requested.add rb) s)
     | .bin .mul l r =>
       match l.asNum with
-      | some c => if Arith.ne c zero then tightenExpression r (required.divBy c) s else s
+      | some c => if Arith.ne c zero then tightenExpression r (requested.divBy c) s else s
       | none => match r.asNum with
-        | some c => if Arith.ne c zero then tightenExpression l (required.divBy c) s else s
+        | some c => if Arith.ne c zero then tightenExpression l (requested.divBy c) s else s
         | none => s
     | .bin .div l r =>
       match r.asNum with
-      | some d => if Arith.ne d zero then tightenExpression l (required.scale d) s else s
+      | some d => if Arith.ne d zero then tightenExpression l (requested.scale d) s else s
       | none => s
     | .bin _ _ _ => s
-    | .un .neg inner => tightenExpression inner required.neg s
+    | .un .neg inner => tightenExpression inner requested.neg s
     | .un .not _ => s
 /-- `for exp in exps { self.tighten_expression(exp, b, changed) }`. -/
 def tightenList (es : List (Exp α)) (required : Bounds α) (s : TState α) : TState α :=
